@@ -26,6 +26,7 @@ func init() {
 			ruleReadersWriteNothing(c, "R13", "tree", "router")
 			ruleExhaustedPathPrefersTheNode(c, "R14")
 			ruleRootMappedPathsAreNotPatterns(c, "R15")
+			ruleSummaryReadOnlyOfLiveNodes(c, "R16")
 		},
 	})
 }
